@@ -49,6 +49,10 @@ pub enum Step {
     /// reached without the sleep being polled; then reset to now + d2 and awaited
     ResetLate { d1: u64, wait: u64, d2: u64 },
     IntervalNew { period: u64, behavior: Behavior },
+    /// `interval_at(now - back + fwd, period)`: the first tick is due in the past, now or later
+    IntervalAt { back: u64, fwd: u64, period: u64, behavior: Behavior },
+    /// `Interval::reset()`: the next tick is due one period from now, whatever was missed
+    IntervalReset,
     Tick,
     /// awaits the next item of this task's channel; the k-th item is fed at the k-th feed time
     Recv,
@@ -59,6 +63,10 @@ pub struct Task {
     pub steps: Vec<Step>,
     /// absolute feed instants (sorted) for the Recv steps
     pub feeds: Vec<u64>,
+    /// the script uses the other entry points of the timer API: sleep(d) as sleep_until(now + d), timeout(d, f) as
+    /// timeout_at(now + d, f), interval(p) as interval_at(now, p)
+    #[serde(default)]
+    pub alt_api: bool,
 }
 
 /// the module is shut down at `shutdown_at` (from a message handler) and restarted at `restart_at`; the second
@@ -82,6 +90,11 @@ pub struct Case {
     /// per module (missing = no restart)
     #[serde(default)]
     pub restarts: Vec<Option<Restart>>,
+    /// unrelated messages a module schedules for itself at start-up: (module, arrival instant, swallowed by a
+    /// processing element of the module instead of reaching the handler). Most arrival instants coincide with a
+    /// timer deadline of the module; none of this may move a completion.
+    #[serde(default)]
+    pub noise: Vec<(usize, u64, bool)>,
 }
 
 impl Case {
@@ -131,12 +144,16 @@ fn log(module: usize, task: usize, step: usize, outcome: u64) {
     LOG.with(|l| l.borrow_mut().push(LogRec { module, task, step, t: now_ns(), outcome }));
 }
 
-async fn run_script(module: usize, task: usize, steps: Vec<Step>, mut rx: mpsc::Receiver<()>) {
+async fn run_script(module: usize, task: usize, steps: Vec<Step>, alt: bool, mut rx: mpsc::Receiver<()>) {
     let mut iv: Option<des::time::Interval> = None;
     for (i, s) in steps.iter().enumerate() {
         let outcome: u64 = match s {
             Step::Sleep(d) => {
-                sleep(dur(*d)).await;
+                if alt {
+                    sleep_until(SimTime::now() + dur(*d)).await;
+                } else {
+                    sleep(dur(*d)).await;
+                }
                 0
             }
             Step::SleepUntil(t) => {
@@ -144,10 +161,19 @@ async fn run_script(module: usize, task: usize, steps: Vec<Step>, mut rx: mpsc::
                 0
             }
             Step::Timeout { d, inner } => {
-                let r = match inner {
-                    Inner::Sleep(x) => timeout(dur(*d), sleep(dur(*x))).await.is_ok(),
-                    Inner::Yield => timeout(dur(*d), tokio::task::yield_now()).await.is_ok(),
-                    Inner::Never => timeout(dur(*d), std::future::pending::<()>()).await.is_ok(),
+                let r = if alt {
+                    let at = SimTime::now() + dur(*d);
+                    match inner {
+                        Inner::Sleep(x) => des::time::timeout_at(at, sleep(dur(*x))).await.is_ok(),
+                        Inner::Yield => des::time::timeout_at(at, tokio::task::yield_now()).await.is_ok(),
+                        Inner::Never => des::time::timeout_at(at, std::future::pending::<()>()).await.is_ok(),
+                    }
+                } else {
+                    match inner {
+                        Inner::Sleep(x) => timeout(dur(*d), sleep(dur(*x))).await.is_ok(),
+                        Inner::Yield => timeout(dur(*d), tokio::task::yield_now()).await.is_ok(),
+                        Inner::Never => timeout(dur(*d), std::future::pending::<()>()).await.is_ok(),
+                    }
                 };
                 u64::from(r)
             }
@@ -166,9 +192,21 @@ async fn run_script(module: usize, task: usize, steps: Vec<Step>, mut rx: mpsc::
             Step::Reset { d1, d2 } => {
                 let mut s = pin!(sleep(dur(*d1)));
                 let _ = futures::poll!(s.as_mut());
-                s.as_mut().reset(SimTime::now() + dur(*d2));
-                s.await;
-                0
+                let target = SimTime::now() + dur(*d2);
+                s.as_mut().reset(target);
+                // the accessors of the handle agree with what was asked for (900+: they do not)
+                let mut bad = 0;
+                if s.deadline() != target {
+                    bad = 901;
+                }
+                if s.is_elapsed() != (*d2 == 0) {
+                    bad = 902;
+                }
+                s.as_mut().await;
+                if !s.is_elapsed() {
+                    bad = 903;
+                }
+                bad
             }
             Step::ResetLate { d1, wait, d2 } => {
                 let mut s = pin!(sleep(dur(*d1)));
@@ -178,8 +216,28 @@ async fn run_script(module: usize, task: usize, steps: Vec<Step>, mut rx: mpsc::
                 s.await;
                 0
             }
+            Step::IntervalAt { back, fwd, period, behavior } => {
+                let start = (now_ns().saturating_sub(*back)).saturating_add(*fwd);
+                let mut v = des::time::interval_at(SimTime::from_duration(Duration::from_nanos(start)), dur(*period));
+                v.set_missed_tick_behavior(match behavior {
+                    Behavior::Burst => MissedTickBehavior::Burst,
+                    Behavior::Delay => MissedTickBehavior::Delay,
+                    Behavior::Skip => MissedTickBehavior::Skip,
+                });
+                let ok = v.period() == dur(*period) && v.missed_tick_behavior() == match behavior {
+                    Behavior::Burst => MissedTickBehavior::Burst,
+                    Behavior::Delay => MissedTickBehavior::Delay,
+                    Behavior::Skip => MissedTickBehavior::Skip,
+                };
+                iv = Some(v);
+                if ok { 0 } else { 904 }
+            }
+            Step::IntervalReset => {
+                iv.as_mut().expect("script: interval exists").reset();
+                0
+            }
             Step::IntervalNew { period, behavior } => {
-                let mut v = interval(dur(*period));
+                let mut v = if alt { des::time::interval_at(SimTime::now(), dur(*period)) } else { interval(dur(*period)) };
                 v.set_missed_tick_behavior(match behavior {
                     Behavior::Burst => MissedTickBehavior::Burst,
                     Behavior::Delay => MissedTickBehavior::Delay,
@@ -202,6 +260,7 @@ async fn run_script(module: usize, task: usize, steps: Vec<Step>, mut rx: mpsc::
 }
 
 struct Scripted {
+    noise: Vec<(u64, bool)>,
     idx: usize,
     tasks: Vec<Task>,
     senders: Vec<mpsc::Sender<()>>,
@@ -210,8 +269,29 @@ struct Scripted {
 }
 
 const CTRL: u16 = 52;
+const NOISE: u16 = 53;
+const NOISE_SWALLOWED: u16 = 54;
+
+/// consumes NOISE_SWALLOWED messages: the module's handler never runs in that event
+struct Swallow;
+impl des::net::processing::ProcessingElement for Swallow {
+    fn incoming(&mut self, msg: Message) -> Option<Message> {
+        if msg.header().kind == NOISE_SWALLOWED {
+            None
+        } else {
+            Some(msg)
+        }
+    }
+}
 
 impl Module for Scripted {
+    fn stack(&self, mut stack: des::net::processing::ProcessingStack) -> des::net::processing::ProcessingStack {
+        if self.noise.iter().any(|n| n.1) {
+            stack.append(Swallow);
+        }
+        stack
+    }
+
     fn reset(&mut self) {
         self.incarnation += 1;
     }
@@ -224,12 +304,16 @@ impl Module for Scripted {
             for (ti, task) in tasks.iter().enumerate() {
                 let (tx, rx) = mpsc::channel(1);
                 self.senders.push(tx);
-                tokio::spawn(run_script(self.idx, 100 + ti, task.steps.clone(), rx));
+                tokio::spawn(run_script(self.idx, 100 + ti, task.steps.clone(), task.alt_api, rx));
             }
             return;
         }
         if let Some(r) = &self.restart {
             schedule_at(Message::default().kind(CTRL), SimTime::from_duration(Duration::from_nanos(r.shutdown_at)));
+        }
+        // scheduled before any timer is registered: these events sit in front of the wake-up events of their instant
+        for (t, swallowed) in &self.noise {
+            schedule_at(Message::default().kind(if *swallowed { NOISE_SWALLOWED } else { NOISE }), SimTime::from_duration(Duration::from_nanos(*t)));
         }
         for (ti, task) in self.tasks.iter().enumerate() {
             let (tx, rx) = mpsc::channel(64);
@@ -237,7 +321,7 @@ impl Module for Scripted {
             for f in &task.feeds {
                 schedule_at(Message::default().kind(FEED).id(ti as u16), SimTime::from_duration(Duration::from_nanos(*f)));
             }
-            let h = tokio::spawn(run_script(self.idx, ti, task.steps.clone(), rx));
+            let h = tokio::spawn(run_script(self.idx, ti, task.steps.clone(), task.alt_api, rx));
             // tasks of a module that is shut down on purpose are cancelled, not joined
             if self.restart.is_none() {
                 current().join(h);
@@ -343,6 +427,15 @@ fn interpret(mi: usize, ti: usize, task: &Task, start: u64) -> Vec<LogRec> {
                         iv = Some((now, *period, *behavior));
                         0
                     }
+                    Step::IntervalAt { back, fwd, period, behavior } => {
+                        iv = Some((now.saturating_sub(*back).saturating_add(*fwd), *period, *behavior));
+                        0
+                    }
+                    Step::IntervalReset => {
+                        let (_, period, behavior) = iv.expect("script: interval exists");
+                        iv = Some((now + period, period, behavior));
+                        0
+                    }
                     Step::Tick => {
                         let (deadline, period, behavior) = iv.expect("script: interval exists");
                         let c = now.max(deadline);
@@ -414,7 +507,8 @@ pub fn execute(case: &Case) -> Observed {
     let res = vcommon::catch(|| {
         let mut sim = Sim::new(());
         for (mi, tasks) in case.modules.iter().enumerate() {
-            sim.node(format!("m{mi}"), Scripted { idx: mi, tasks: tasks.clone(), senders: Vec::new(), restart: case.restart_of(mi).cloned(), incarnation: 0 });
+            let noise: Vec<(u64, bool)> = case.noise.iter().filter(|n| n.0 == mi).map(|n| (n.1, n.2)).collect();
+            sim.node(format!("m{mi}"), Scripted { noise, idx: mi, tasks: tasks.clone(), senders: Vec::new(), restart: case.restart_of(mi).cloned(), incarnation: 0 });
         }
         let rt = Builder::seeded(11).quiet().build(sim.freeze());
         match rt.run() {
@@ -567,11 +661,20 @@ pub fn gen_task_with(rng: &mut Rng, max_steps: usize, allow_recv: bool) -> Task 
                 // either on time or late by >= 10 ms (outside the implementation's 5 ms grace window)
                 let period = *rng.pick(&[20 * MS, 50 * MS, 100 * MS]);
                 let behavior = *rng.pick(&[Behavior::Burst, Behavior::Delay, Behavior::Skip]);
-                steps.push(Step::IntervalNew { period, behavior });
+                if rng.chance(1, 3) {
+                    // first tick due 50 / 10 ms ago, now, or in 10 / 100 ms
+                    let (back, fwd) = *rng.pick(&[(50 * MS, 0), (10 * MS, 0), (0, 0), (0, 10 * MS), (0, 100 * MS)]);
+                    steps.push(Step::IntervalAt { back, fwd, period, behavior });
+                } else {
+                    steps.push(Step::IntervalNew { period, behavior });
+                }
                 steps.push(Step::Tick);
                 for _ in 0..1 + rng.usize_below(5) {
                     if rng.chance(1, 2) {
                         steps.push(Step::Sleep(*rng.pick(&[10 * MS, 20 * MS, 30 * MS, 50 * MS, 70 * MS, 200 * MS])));
+                    }
+                    if rng.chance(1, 6) {
+                        steps.push(Step::IntervalReset);
                     }
                     steps.push(Step::Tick);
                 }
@@ -596,7 +699,7 @@ pub fn gen_task_with(rng: &mut Rng, max_steps: usize, allow_recv: bool) -> Task 
             }
         }
     }
-    Task { steps, feeds }
+    Task { steps, feeds, alt_api: rng.chance(1, 3) }
 }
 
 pub fn gen_case(rng: &mut Rng, max_steps: usize) -> Case {
@@ -618,7 +721,27 @@ pub fn gen_case(rng: &mut Rng, max_steps: usize) -> Case {
             restarts.push(None);
         }
     }
-    Case { modules: mods, restarts }
+    let mut case = Case { modules: mods, restarts, noise: Vec::new() };
+    add_noise(rng, &mut case);
+    case
+}
+
+/// unrelated self messages, most of them arriving exactly at a timer deadline of their module
+fn add_noise(rng: &mut Rng, case: &mut Case) {
+    if rng.chance(1, 2) {
+        return;
+    }
+    let reference = reference(case);
+    for mi in 0..case.modules.len() {
+        let instants: Vec<u64> = reference.iter().filter(|r| r.module == mi && r.t > 0 && r.t < 1 << 50).map(|r| r.t).collect();
+        if instants.is_empty() {
+            continue;
+        }
+        for _ in 0..rng.usize_below(7) {
+            let t = if rng.chance(3, 4) { *rng.pick(&instants) } else { rng.below(20_000) * MS + MS / 4 };
+            case.noise.push((mi, t, rng.chance(1, 2)));
+        }
+    }
 }
 
 fn case_hash(c: &Case) -> u64 {
@@ -639,7 +762,9 @@ pub fn cmd(args: &Args) -> Report {
     for i in 0..cases {
         let case = if i % 4 == 0 {
             // small: one module, few short tasks (the shapes that isolate a single timer interaction)
-            Case { modules: vec![(0..1 + rng.usize_below(2)).map(|_| gen_task(&mut rng, 4)).collect()], restarts: Vec::new() }
+            let mut c = Case { modules: vec![(0..1 + rng.usize_below(2)).map(|_| gen_task(&mut rng, 4)).collect()], restarts: Vec::new(), noise: Vec::new() };
+            add_noise(&mut rng, &mut c);
+            c
         } else {
             gen_case(&mut rng, max_steps)
         };
@@ -649,6 +774,8 @@ pub fn cmd(args: &Args) -> Report {
         rep.eval();
         rep.count("timer_steps_checked", o.log.len() as u64);
         rep.count("module_events_with_timer_state_observed", o.slot_events);
+        rep.count("unrelated_messages_arriving_at_a_timer_deadline", case.noise.len() as u64);
+        rep.count("unrelated_messages_swallowed_by_a_processing_element", case.noise.iter().filter(|n| n.2).count() as u64);
         rep.count("module_events_with_empty_slots_in_front_of_live_timers", o.empty_front_slots);
         for t in case.modules.iter().flatten() {
             for s in &t.steps {
@@ -661,10 +788,15 @@ pub fn cmd(args: &Args) -> Report {
                     Step::Reset { .. } => "steps_reset",
                     Step::ResetLate { .. } => "steps_reset_after_deadline",
                     Step::IntervalNew { .. } => "steps_interval_new",
+                    Step::IntervalAt { .. } => "steps_interval_at",
+                    Step::IntervalReset => "steps_interval_reset",
                     Step::Tick => "steps_interval_tick",
                     Step::Recv => "steps_recv",
                 };
                 rep.count(key, 1);
+                if t.alt_api {
+                    rep.count("steps_through_sleep_until_timeout_at_interval_at", 1);
+                }
             }
         }
         if findings.is_empty() && o.empty_front_slots > 0 {
